@@ -83,9 +83,33 @@ def run_case(case):
         odb = cls(fs, os.path.join(root, "cache"), type=[case.get("link", "copy")])
         for c in case["avail"]:
             odb.add_bytes(OID[c], CONTENTS[c])
-        lazy = case.get("form") == "lazy"
+        lazy = case.get("form") in ("lazy", "filestore", "filestore-prefix")
+        filestore = case.get("form") in ("filestore", "filestore-prefix")
         top = wsd
-        if lazy:
+        if filestore:
+            # the target's data is kept as plain files: a FileStorage registered for the sub-tree `data`, either rooted at
+            # that sub-tree (default prefix) or at the directory above it with an explicitly empty prefix
+            from dvc_data.index import FileStorage
+
+            wsd = os.path.join(top, "data")
+            shutil.move(top, top + ".tmp")
+            os.makedirs(top)
+            shutil.move(top + ".tmp", wsd)
+            store = os.path.join(root, "filestore")
+            shutil.move(srcd, os.path.join(store, "data"))
+            os.makedirs(srcd)
+            new = md5(build(store, fs))
+            for dp, _ds, fs_ in os.walk(os.path.join(store, "data")):
+                for f in fs_:   # contents the storage cannot supply
+                    with open(os.path.join(dp, f), "rb") as fh:
+                        c = REVOID.get(hashlib.md5(fh.read()).hexdigest())
+                    if c not in case["avail"]:
+                        os.unlink(os.path.join(dp, f))
+            if case["form"] == "filestore-prefix":
+                new.storage_map.add_cache(FileStorage(key=("data",), fs=fs, path=store, prefix=()))
+            else:
+                new.storage_map.add_cache(FileStorage(key=("data",), fs=fs, path=os.path.join(store, "data")))
+        elif lazy:
             # the target is ONE unloaded entry `data` pointing at a directory object in the cache; compare() expands it from
             # object storage.  The universe's paths live below ws/data; the entry `data` itself is not part of the universe.
             from dvc_data.hashfile.build import build as obuild
@@ -102,7 +126,8 @@ def run_case(case):
             new[("data",)] = DataIndexEntry(key=("data",), meta=Meta(isdir=True), hash_info=obj.hash_info)
         else:
             new = md5(build(srcd, fs))
-        new.storage_map.add_cache(ObjectStorage((), odb))
+        if not filestore:
+            new.storage_map.add_cache(ObjectStorage((), odb))
         shutil.rmtree(srcd)  # the target's data is available from its cache storage only
 
         def lists(diff):
@@ -204,7 +229,7 @@ def make_cases(trees, rng, n, exhaustive=False):
     for i, (w, t) in enumerate(pairs):
         need = sorted({nd["c"] for nd in t.values() if nd["k"] == "f"})
         avail = need if i % 5 else rng.sample(["c1", "c2"], rng.randrange(0, 3))
-        form = "lazy" if i % 5 == 2 else "explicit"
+        form = "lazy" if i % 5 == 2 else ("filestore", "filestore-prefix")[i % 2] if i % 5 == 4 and i % 7 else "explicit"
         if form == "lazy":
             # a directory object lists files only: the directories of the target are those its files need
             # (nor does it carry the executable bit)
